@@ -148,19 +148,50 @@ NOT_NONE_DESIGNATORS = {
                # so every GS segment stored in the error tree has at least 8 elements
     'ISA': 16,  # X12Base._parse_segment raises X12Error unless the ISA has exactly 16 elements
 }
-SOURCE_NAMES = {'bad_value'}
+def _source_names(f):
+    """names bound to the offending value of an element error: third component of the items of `<x>.errors`"""
+    out = set()
+    for n in ast.walk(f):
+        if isinstance(n, (ast.For, ast.comprehension)) and isinstance(n.target, ast.Tuple) and len(n.target.elts) >= 3 \
+                and (path_of(n.iter) or '').endswith('.errors') and isinstance(n.target.elts[2], ast.Name):
+            out.add(n.target.elts[2].id)
+    return out
 
 
-def _tainted(e, tainted_locals):
-    """does expression e carry input text?  returns the source description or None"""
+def _tainted(e, tainted_locals, source_names=()):
+    """does expression e carry input text?  returns a description of the source that does not depend on the names of
+    local variables (the designator read, the tree field, 'error value') or None"""
     for n in ast.walk(e):
         if isinstance(n, ast.Call) and A.call_target(n)[1] == 'get_value':
-            return norm(n)
-        if isinstance(n, ast.Attribute) and n.attr in SOURCE_FIELDS and isinstance(n.value, ast.Name) and n.value.id.startswith('err_'):
-            return norm(n)
-        if isinstance(n, ast.Name) and (n.id in SOURCE_NAMES or n.id in tainted_locals):
-            return n.id
+            d = A.const(n.args[0]) if n.args else None
+            return d if isinstance(d, str) else norm(n)
+        if isinstance(n, ast.Attribute) and n.attr in SOURCE_FIELDS and (path_of(n.value) or '').startswith('err'):
+            return 'tree field ' + n.attr
+        if isinstance(n, ast.Name) and n.id in source_names:
+            return 'error value'
+        if isinstance(n, ast.Name) and n.id in tainted_locals:
+            return tainted_locals[n.id]
     return None
+
+
+def _sink_segment(f, recv):
+    """segment id of the acknowledgement segment a receiver variable holds (from the literal it was built from)"""
+    for s in ast.walk(f):
+        if isinstance(s, ast.Assign) and path_of(s.targets[0]) == recv and isinstance(s.value, ast.Call) \
+                and A.call_target(s.value)[1] == 'Segment' and s.value.args:
+            a = s.value.args[0]
+            while isinstance(a, ast.BinOp):
+                a = a.left
+            if A.is_str(a):
+                return a.value.split('*')[0]
+            if isinstance(a, ast.Call) and A.call_target(a)[1] == 'format' and isinstance(a.func, ast.Attribute) and path_of(a.func.value):
+                return _sink_segment(f, path_of(a.func.value))
+            if isinstance(a, ast.Name):
+                for s2 in ast.walk(f):
+                    if isinstance(s2, ast.Assign) and path_of(s2.targets[0]) == a.id and isinstance(s2.value, ast.Call) \
+                            and A.call_target(s2.value)[1] == 'format' and isinstance(s2.value.func, ast.Attribute) and path_of(s2.value.func.value):
+                        return _sink_segment(f, path_of(s2.value.func.value))
+    return recv
 
 
 def _sanitised(ctx, e):
@@ -180,10 +211,11 @@ def r3_echo_taint(ctx):
             if not isinstance(f, ast.FunctionDef):
                 continue
             tainted = {}
+            srcn = _source_names(f)
             # one forward pass over simple assignments (source order) for locals
             for s in ast.walk(f):
                 if isinstance(s, ast.Assign) and isinstance(s.targets[0], ast.Name):
-                    src = _tainted(s.value, tainted)
+                    src = _tainted(s.value, tainted, srcn)
                     if src and not _sanitised(ctx, s.value):
                         # a Segment object built from tainted text is not itself a text value
                         if isinstance(s.value, ast.Call) and A.call_target(s.value)[1] == 'Segment':
@@ -197,13 +229,13 @@ def r3_echo_taint(ctx):
                 kind = None
                 if m == 'Segment' and c.args:
                     arg, kind = c.args[0], 'Segment(text)'
-                elif m == 'append' and c.args and r and (r.endswith('seg') or r in ('seg_data', 'seg_base', 'ak1', 'ge')):
-                    arg, kind = c.args[0], '%s.append' % r
-                elif m == 'set' and len(c.args) == 2 and r and (r.endswith('seg') or r in ('seg_data', 'seg_base', 'ak1', 'ge')):
-                    arg, kind = c.args[1], '%s.set(%s)' % (r, norm(c.args[0]))
+                elif m == 'append' and c.args and r and _sink_segment(f, r) != r:
+                    arg, kind = c.args[0], '%s.append' % _sink_segment(f, r)
+                elif m == 'set' and len(c.args) == 2 and r and _sink_segment(f, r) != r:
+                    arg, kind = c.args[1], '%s.set(%s)' % (_sink_segment(f, r), norm(c.args[0]))
                 if arg is None:
                     continue
-                src = _tainted(arg, tainted)
+                src = _tainted(arg, tainted, srcn)
                 if src is None:
                     continue
                 ok = _sanitised(ctx, arg)
@@ -314,9 +346,16 @@ def r6_997_counter(ctx):
     se = _seg_values(f, 'seg_data')
     # the last built segment in the function is SE
     src = None
-    for s in f.body:
-        if isinstance(s, ast.Assign) and path_of(s.targets[0]) == 'seg_count':
-            src = A.canon(s.value)
+    e = se.get(1)
+    if isinstance(e, ast.BinOp) and isinstance(e.op, ast.Mod) and A.is_str(e.left) and e.left.value in ('%i', '%d', '%s'):
+        e = e.right
+        if isinstance(e, ast.Tuple) and len(e.elts) == 1:
+            e = e.elts[0]
+    if isinstance(e, ast.Name):
+        defs = [s.value for s in ast.walk(f) if isinstance(s, ast.Assign) and path_of(s.targets[0]) == e.id]
+        e = defs[-1] if len(defs) == 1 else None
+    if e is not None:
+        src = A.canon(e)
     ok = src == '(1+self.seg_count)'
     yield Ob('error_997:error_997_visitor.visit_gs_post SE01 = counter + 1 (SE included)', ok, ctx.floc(f), '' if ok else 'SE01 source is %s' % src)
     f = ctx.func('error_997', 'error_997_visitor.visit_root_post')
